@@ -131,6 +131,7 @@ fn replay_typed<P: PType>(rp: &Value) -> Vec<Viol> {
     let alpha = match spec["alpha"].as_str() {
         Some("structural") => Alphabet::Structural,
         Some("canonical") => Alphabet::Canonical,
+        Some("repr") => Alphabet::Repr,
         _ => Alphabet::Full,
     };
     let key_opts = KeyOpts { reps: spec["reps"].as_bool().unwrap_or(false), layout: spec["layout"].as_bool().unwrap_or(false), no_free: spec["no_free"].as_bool().unwrap_or(false) };
